@@ -122,7 +122,14 @@ int main(int argc, char **argv)
         int cnt = parse_ints(line, v, 700);
         int kind = (int)v[1], n = (int)v[2], aux = (int)v[3], nn = n * n;
         if (cnt != 4 + 2 * nn || n > 12) { fprintf(stderr, "bad line\n"); return 3; }
-        a_real A[160], W[160], L[160], U[160], P[160], P2[160], I1[160], I2[160], b[16], x[16], tmp[16], d[16];
+        /* every array handed to the library is a heap block of exactly the documented size: n*n for matrices, n for vectors
+           (under ASan a write or read one element beyond it aborts) */
+        a_real A[160];
+        a_real *W = (a_real *)malloc(sizeof(a_real) * (size_t)(v[2] * v[2])), *L = (a_real *)malloc(sizeof(a_real) * (size_t)(v[2] * v[2])),
+               *U = (a_real *)malloc(sizeof(a_real) * (size_t)(v[2] * v[2])), *P = (a_real *)malloc(sizeof(a_real) * (size_t)(v[2] * v[2])),
+               *P2 = (a_real *)malloc(sizeof(a_real) * (size_t)(v[2] * v[2])), *I1 = (a_real *)malloc(sizeof(a_real) * (size_t)(v[2] * v[2])),
+               *I2 = (a_real *)malloc(sizeof(a_real) * (size_t)(v[2] * v[2])), *b = (a_real *)malloc(sizeof(a_real) * (size_t)v[2]),
+               *x = (a_real *)malloc(sizeof(a_real) * (size_t)v[2]), *tmp = (a_real *)malloc(sizeof(a_real) * (size_t)v[2]), *d = (a_real *)malloc(sizeof(a_real) * (size_t)v[2]);
         for (int i = 0; i < nn; ++i) { A[i] = (a_real)v[4 + 2 * i] / (a_real)v[5 + 2 * i]; }
         for (int i = 0; i < n; ++i) { b[i] = (a_real)(i % 2 ? -2 * (i + 1) : (i + 1)); }
         if (n > 5)
@@ -252,6 +259,7 @@ int main(int argc, char **argv)
             }
         }
         fputs("}\n", f);
+        free(W); free(L); free(U); free(P); free(P2); free(I1); free(I2); free(b); free(x); free(tmp); free(d);
     }
     for (int i = 0; i < nb; ++i) { fclose(fo[i]); }
     printf("SUMMARY {\"events\":%ld,\"duplicates_skipped\":%ld,\"plu\":%ld,\"plu_singular\":%ld,\"ldl\":%ld,\"ldl_singular\":%ld,\"llt\":%ld,\"llt_not_pd\":%ld}\n", n_events, n_dups,
